@@ -76,24 +76,26 @@ const (
 	verifC03B
 	verifC03C
 	verifC03U // admin user created by NewSqliteDb under the root
+	verifC03D // fourth extra node, only used by the "deep diamond" shape of the shapes part
 	verifC03NNodes
 )
 
-var verifC03NodeNames = [verifC03NNodes]string{"R", "A", "B", "C", "U"}
+var verifC03NodeNames = [verifC03NNodes]string{"R", "A", "B", "C", "U", "D"}
 
 // All explicit timestamps lie in the future of the wall clock, because the root and admin edges
 // created by NewSqliteDb carry time.Now() and writes on them must not be out of date by accident.
 var verifC03T = [3]time.Time{{}, time.Unix(4102444800, 0), time.Unix(4102444801, 0)} // T1 < T2 (year 2100)
 
 type verifC03Op struct {
-	kind int
-	x, p int // node, parent (p = -1 for node points)
-	typ  string
-	ts   int // 1 or 2
-	val  float64
-	text string
-	name string
-	ex   bool // member of the exhaustive alphabet
+	kind  int
+	x, p  int // node, parent (p = -1 for node points)
+	typ   string
+	ts    int // 1 or 2
+	val   float64
+	text  string
+	name  string
+	ex    bool // member of the exhaustive alphabet
+	dOnly bool // letter about node D: only used on top of the deep-diamond shape (not sampled, not in the exhaustive alphabet)
 }
 
 func verifC03Alphabet() []verifC03Op {
@@ -180,11 +182,75 @@ func verifC03Alphabet() []verifC03Op {
 			ex:   e.x != verifC03U,
 			name: fmt.Sprintf("undel(%s under %s)", verifC03NodeNames[e.x], verifC03NodeNames[e.p])})
 	}
+	// letters about node D, APPENDED so that the indexes of all other letters (and with them the sampled histories) stay the same
+	dn := verifC03NodeNames[verifC03D]
+	for _, p := range []int{verifC03B, verifC03C} {
+		add(verifC03Op{kind: verifC03KMk, x: verifC03D, p: p, dOnly: true,
+			name: fmt.Sprintf("mk(%s under %s)", dn, verifC03NodeNames[p])})
+	}
+	add(verifC03Op{kind: verifC03KNp, x: verifC03D, p: -1, typ: data.PointTypeValue, ts: 2, val: 1, dOnly: true,
+		name: fmt.Sprintf("np(%s value@T2=1)", dn)})
+	add(verifC03Op{kind: verifC03KNp, x: verifC03D, p: -1, typ: data.PointTypeValue, ts: 1, val: 2, dOnly: true,
+		name: fmt.Sprintf("np(%s value@T1=2)", dn)})
+	add(verifC03Op{kind: verifC03KEp, x: verifC03D, p: verifC03B, typ: data.PointTypeRole, ts: 2, text: "admin", dOnly: true,
+		name: fmt.Sprintf("ep(%s under B role@T2=\"admin\")", dn)})
+	add(verifC03Op{kind: verifC03KDel, x: verifC03D, p: verifC03B, ts: 2, val: 1, dOnly: true,
+		name: fmt.Sprintf("del(%s under B)", dn)})
+	add(verifC03Op{kind: verifC03KUndel, x: verifC03D, p: verifC03B, ts: 2, val: 0, dOnly: true,
+		name: fmt.Sprintf("undel(%s under B)", dn)})
+	add(verifC03Op{kind: verifC03KMkU, x: verifC03U, p: verifC03D, dOnly: true,
+		name: fmt.Sprintf("mkU(U under %s)", dn)})
 	if len(al) > 250 {
 		panic("alphabet too large for uint8 letters")
 	}
 	return al
 }
+
+// ---------------------------------------------------------------------------------------------
+// named graph shapes for the shapes part: built first on the fresh database, then histories run on top
+
+type verifC03Shape struct {
+	idx     int
+	name    string
+	steps   []string // letter names
+	letters []uint8
+	useD    bool
+}
+
+func verifC03Shapes(al []verifC03Op) []*verifC03Shape {
+	shapes := []*verifC03Shape{
+		{name: "chain R>A>B>C", steps: []string{"mk(A under R)", "mk(B under A)", "mk(C under B)"}},
+		{name: "mirror: C under A and under B, A and B under R (diamond joining at the root edge)",
+			steps: []string{"mk(A under R)", "mk(B under R)", "mk(C under A)", "mk(C under B)"}},
+		{name: "deep diamond R>A, A>B, A>C, B>D, C>D (joins at the edge A under R)", useD: true,
+			steps: []string{"mk(A under R)", "mk(B under A)", "mk(C under A)", "mk(D under B)", "mk(D under C)"}},
+		{name: "populated subtree attached late (A and B points-first, B under A edge-first, then A under R)",
+			steps: []string{"np(A value@T1=1)", "np(B value@T2=1)", "mk(B under A)", "np(A description@T2=\"d1\")", "mk(A under R)"}},
+		{name: "node with a deleted child (B under A deleted)",
+			steps: []string{"mk(A under R)", "mk(B under A)", "np(B value@T2=1)", "del(B under A)"}},
+		{name: "deleted and re-created placement (B under A deleted, then undeleted)",
+			steps: []string{"mk(A under R)", "mk(B under A)", "np(B value@T2=1)", "del(B under A)", "undel(B under A)"}},
+		{name: "node mirrored three times (C under R, under A and under B)",
+			steps: []string{"mk(A under R)", "mk(B under R)", "mk(C under R)", "mk(C under A)", "mk(C under B)"}},
+	}
+	byName := map[string]int{}
+	for i, o := range al {
+		byName[o.name] = i
+	}
+	for i, sh := range shapes {
+		sh.idx = i
+		for _, st := range sh.steps {
+			li, ok := byName[st]
+			if !ok {
+				panic("shape step is not a letter: " + st)
+			}
+			sh.letters = append(sh.letters, uint8(li))
+		}
+	}
+	return shapes
+}
+
+func (sh *verifC03Shape) tag() string { return fmt.Sprintf("S%d/", sh.idx) }
 
 // ---------------------------------------------------------------------------------------------
 // database access
@@ -574,8 +640,35 @@ func (g *verifC03Gen) pick(al []verifC03Op, ids *verifC03IDs, s *verifC03Snap) u
 // verifC03RunHistory executes one history on a fresh database. fixed != nil: the history to run;
 // gen != nil: the history is drawn step by step. Returns the letters, the per-step marks
 // ('a' accepted and changed the database, 'n' accepted without change, 'r' refused).
+//
+// shape != nil: fixed starts with the letters of the shape (the prefix, not counted as history). In the run of the
+// bare shape the invariant is checked after every prefix step; in runs with a suffix the prefix is replayed and the
+// full check starts after its last step (then after every write of the suffix).
 func verifC03RunHistory(dir string, seq int64, al []verifC03Op, fixed []uint8, gen *verifC03Gen,
-	acc *verifC03Acc) (hist []uint8, marks []byte, err error) {
+	acc *verifC03Acc, shape *verifC03Shape) (hist []uint8, marks []byte, err error) {
+
+	pre, tag := 0, ""
+	if shape != nil {
+		pre, tag = len(shape.letters), shape.tag()
+	}
+	// keyAt names the executed history up to and including step i
+	keyAt := func(i int) string {
+		if i < pre {
+			return fmt.Sprintf("%sprefix%d", tag, i+1)
+		}
+		return tag + hex.EncodeToString(hist[pre:i+1])
+	}
+	render := func() string {
+		if shape == nil {
+			return verifC03Render(al, hist, marks)
+		}
+		k := pre
+		if len(hist) < k {
+			k = len(hist)
+		}
+		return "[shape " + shape.name + ": " + verifC03Render(al, hist[:k], marks[:k]) + "] " +
+			verifC03Render(al, hist[k:], marks[k:])
+	}
 
 	f := filepath.Join(dir, fmt.Sprintf("h%d.db", seq))
 	sdb, err := NewSqliteDb(f, "")
@@ -592,7 +685,7 @@ func verifC03RunHistory(dir string, seq int64, al []verifC03Op, fixed []uint8, g
 
 	var ids verifC03IDs
 	ids[verifC03R] = sdb.rootNodeID()
-	ids[verifC03A], ids[verifC03B], ids[verifC03C] = "verifC03-A", "verifC03-B", "verifC03-C"
+	ids[verifC03A], ids[verifC03B], ids[verifC03C], ids[verifC03D] = "verifC03-A", "verifC03-B", "verifC03-C", "verifC03-D"
 	us, err := sdb.edges(nil, "SELECT * FROM edges WHERE type=?", data.NodeTypeUser)
 	if err != nil || len(us) != 1 {
 		return nil, nil, fmt.Errorf("admin user lookup: %v (%d rows)", err, len(us))
@@ -636,6 +729,14 @@ func verifC03RunHistory(dir string, seq int64, al []verifC03Op, fixed []uint8, g
 		op := al[li]
 		hist = append(hist, li)
 		werr := verifC03Apply(sdb, &ids, op)
+		if shape != nil && len(fixed) > pre && step < pre-1 {
+			// replay of a shape prefix below a suffix: checked step by step in the run of the bare shape
+			if werr != nil {
+				return hist, marks, fmt.Errorf("shape %q: prefix step %s refused: %v", shape.name, op.name, werr)
+			}
+			marks = append(marks, 'a')
+			continue
+		}
 		next, err := verifC03Snapshot(sdb)
 		if err != nil {
 			return hist, marks, err
@@ -645,10 +746,10 @@ func verifC03RunHistory(dir string, seq int64, al []verifC03Op, fixed []uint8, g
 			acc.Refused++
 			marks = append(marks, 'r')
 			if next.dump != cur.dump {
-				acc.Violating[hex.EncodeToString(hist)] = struct{}{}
+				acc.Violating[keyAt(step)] = struct{}{}
 				c := &verifC03Class{Class: "refused write changed the database", Count: 1,
-					History: verifC03Render(al, hist, marks), OpKinds: []string{verifC03KindNames[op.kind]},
-					Letters: hex.EncodeToString(hist), WrongEdges: "error was: " + werr.Error()}
+					History: render(), OpKinds: []string{verifC03KindNames[op.kind]},
+					Letters: keyAt(step), WrongEdges: "error was: " + werr.Error()}
 				for _, k := range next.keys {
 					if o := cur.edges[k]; o == nil || o.stored != next.edges[k].stored {
 						e := next.edges[k]
@@ -669,7 +770,7 @@ func verifC03RunHistory(dir string, seq int64, al []verifC03Op, fixed []uint8, g
 			marks = append(marks, 'n')
 			acc.Noops++
 		}
-		if op.kind >= verifC03KNp {
+		if op.kind >= verifC03KNp && step >= pre {
 			nontrivial = true
 		}
 
@@ -697,15 +798,15 @@ func verifC03RunHistory(dir string, seq int64, al []verifC03Op, fixed []uint8, g
 			}
 		}
 		if bad {
-			acc.Violating[hex.EncodeToString(hist)] = struct{}{}
+			acc.Violating[keyAt(step)] = struct{}{}
 		}
 		if next.fault != "" && next.fault != cur.fault {
-			acc.addClass(&verifC03Class{Class: "structure: " + next.fault, Count: 1, Letters: hex.EncodeToString(hist),
-				History: verifC03Render(al, hist, marks), OpKinds: []string{verifC03KindNames[op.kind]},
+			acc.addClass(&verifC03Class{Class: "structure: " + next.fault, Count: 1, Letters: keyAt(step),
+				History: render(), OpKinds: []string{verifC03KindNames[op.kind]},
 				PrefixClean: prefixClean})
 		}
-		// in the breadth-first part the prefix of a run was classified by its own earlier run
-		if len(introduced) > 0 && (fixed == nil || step == n-1) {
+		// in the breadth-first parts the prefix of a run was classified by its own earlier run
+		if len(introduced) > 0 && (fixed == nil || step == n-1 || (shape != nil && len(fixed) == pre)) {
 			// classification from the shape BEFORE the write
 			var class string
 			x := ids[op.x]
@@ -754,8 +855,8 @@ func verifC03RunHistory(dir string, seq int64, al []verifC03Op, fixed []uint8, g
 					first = e
 				}
 			}
-			acc.addClass(&verifC03Class{Class: class, Count: 1, Letters: hex.EncodeToString(hist),
-				History: verifC03Render(al, hist, marks), Edge: edgeName(first),
+			acc.addClass(&verifC03Class{Class: class, Count: 1, Letters: keyAt(step),
+				History: render(), Edge: edgeName(first),
 				Stored: first.stored, Expected: first.expected, ExpectedDeep: first.deep,
 				WrongEdges: strings.Join(names, " | "), PrefixClean: prefixClean,
 				OpKinds: []string{verifC03KindNames[op.kind]}})
@@ -763,7 +864,7 @@ func verifC03RunHistory(dir string, seq int64, al []verifC03Op, fixed []uint8, g
 		cur = next
 	}
 	if nontrivial {
-		acc.Nontrivial[hex.EncodeToString(hist)] = struct{}{}
+		acc.Nontrivial[keyAt(len(hist)-1)] = struct{}{}
 	}
 	return hist, marks, nil
 }
@@ -796,14 +897,28 @@ func verifC03RunBatch(dir string, al []verifC03Op, b *verifC03Batch, workers int
 	type task struct {
 		hist      []uint8
 		sampleIdx int // -1: fixed history
+		shape     *verifC03Shape
 	}
+	shapes := verifC03Shapes(al)
 	var tasks []task
 	for _, h := range b.Hists {
+		var sh *verifC03Shape
+		if strings.HasPrefix(h, "S") { // "S<shape index>/<hex suffix>"
+			i := strings.Index(h, "/")
+			n, err := strconv.Atoi(h[1:i])
+			if err != nil {
+				panic(err)
+			}
+			sh, h = shapes[n], h[i+1:]
+		}
 		raw, err := hex.DecodeString(h)
 		if err != nil {
 			panic(err)
 		}
-		tasks = append(tasks, task{hist: raw, sampleIdx: -1})
+		if sh != nil {
+			raw = append(append([]uint8{}, sh.letters...), raw...)
+		}
+		tasks = append(tasks, task{hist: raw, sampleIdx: -1, shape: sh})
 	}
 	if b.SampleStep > 0 {
 		for i := b.SampleFrom; i < b.SampleTo; i += b.SampleStep {
@@ -829,29 +944,36 @@ func verifC03RunBatch(dir string, al []verifC03Op, b *verifC03Batch, workers int
 				s := seq
 				seqMu.Unlock()
 				if tk.sampleIdx < 0 {
-					hist, marks, err := verifC03RunHistory(dir, s, al, tk.hist, nil, acc)
+					hist, marks, err := verifC03RunHistory(dir, s, al, tk.hist, nil, acc, tk.shape)
 					if err != nil {
 						acc.Errs = append(acc.Errs, err.Error())
 						continue
 					}
+					pre, tag := 0, ""
+					if tk.shape != nil {
+						pre, tag = len(tk.shape.letters), tk.shape.tag()
+					}
+					name := tag + hex.EncodeToString(hist[pre:])
 					// replay must be deterministic: every non-final step was accepted with a change in the run of the prefix
 					for i := 0; i+1 < len(marks); i++ {
 						if marks[i] != 'a' {
-							acc.Violating[hex.EncodeToString(hist)] = struct{}{}
+							acc.Violating[name] = struct{}{}
 							acc.addClass(&verifC03Class{Class: "replay of an accepted prefix behaved differently", Count: 1,
-								Letters: hex.EncodeToString(hist), History: verifC03Render(al, hist, marks)})
+								Letters: name, History: tag + verifC03Render(al, hist, marks)})
 						}
 					}
-					if len(marks) == len(hist) && len(marks) > 0 && marks[len(marks)-1] == 'a' && len(hist) < b.MaxLen {
-						acc.Extend = append(acc.Extend, hex.EncodeToString(hist))
+					if len(marks) == len(hist) && len(marks) > 0 && marks[len(marks)-1] == 'a' && len(hist)-pre < b.MaxLen {
+						acc.Extend = append(acc.Extend, name)
 					}
 				} else {
 					rng := rand.New(rand.NewSource(b.Seed*1000003 + int64(tk.sampleIdx)))
 					g := &verifC03Gen{rng: rng, n: b.SampleLens[rng.Intn(len(b.SampleLens))]}
 					for i, o := range al {
-						g.byKind[o.kind] = append(g.byKind[o.kind], i)
+						if !o.dOnly {
+							g.byKind[o.kind] = append(g.byKind[o.kind], i)
+						}
 					}
-					hist, marks, err := verifC03RunHistory(dir, s, al, nil, g, acc)
+					hist, marks, err := verifC03RunHistory(dir, s, al, nil, g, acc, nil)
 					if err != nil {
 						acc.Errs = append(acc.Errs, err.Error())
 						continue
@@ -994,16 +1116,24 @@ func TestVerifC03HashHistories(t *testing.T) {
 		tier = "thorough"
 		maxLen, nSample, sampleLens = 4, 30000, []int{5, 6}
 	}
+	shapeLen := maxLen - 1 // quick 2, thorough 3
+	shapeLen = verifC03EnvInt("VERIF_C03_SHAPELEN", shapeLen)
 	maxLen = verifC03EnvInt("VERIF_C03_MAXLEN", maxLen)
 	nSample = verifC03EnvInt("VERIF_C03_SAMPLES", nSample)
 	seed := int64(verifC03EnvInt("VERIF_SEED", 1))
 	procs := verifC03EnvInt("VERIF_C03_PROCS", runtime.NumCPU())
 	workers := verifC03EnvInt("VERIF_C03_WORKERS", runtime.GOMAXPROCS(0))
 
-	var exIdx []uint8
+	var exIdx, dIdx []uint8
+	nFull := 0
 	for i, o := range al {
 		if o.ex {
 			exIdx = append(exIdx, uint8(i))
+		}
+		if o.dOnly {
+			dIdx = append(dIdx, uint8(i))
+		} else {
+			nFull++
 		}
 	}
 
@@ -1038,6 +1168,64 @@ func TestVerifC03HashHistories(t *testing.T) {
 		total.merge(verifC03Dispatch(t, dir, al, b, procs, workers))
 	}
 
+	sampledDone := time.Since(start)
+
+	// shapes part: every named shape is built first, then all histories of length <= shapeLen over the
+	// exhaustive alphabet (plus the D letters for the deep diamond) run on top of it, breadth first
+	shapes := verifC03Shapes(al)
+	shapeAcc := verifC03NewAcc()
+	shapeLevelRuns := []int{}
+	shapeNominal := 0.0
+	var shapeNames []string
+	for _, sh := range shapes {
+		var steps []string
+		for _, l := range sh.letters {
+			steps = append(steps, al[l].name)
+		}
+		shapeNames = append(shapeNames, fmt.Sprintf("S%d %s = %s", sh.idx, sh.name, strings.Join(steps, "; ")))
+		n := len(exIdx)
+		if sh.useD {
+			n += len(dIdx)
+		}
+		for k := 0; k <= shapeLen; k++ {
+			shapeNominal += math.Pow(float64(n), float64(k))
+		}
+	}
+	if shapeLen >= 0 {
+		var sprefixes []string
+		b := &verifC03Batch{MaxLen: shapeLen, Seed: seed, SampleLens: sampleLens}
+		for _, sh := range shapes {
+			b.Hists = append(b.Hists, sh.tag())
+		}
+		for k := 0; k <= shapeLen; k++ {
+			if k > 0 {
+				b = &verifC03Batch{MaxLen: shapeLen, Seed: seed, SampleLens: sampleLens}
+				for _, p := range sprefixes {
+					n, _ := strconv.Atoi(p[1:strings.Index(p, "/")])
+					letters := exIdx
+					if shapes[n].useD {
+						letters = append(append([]uint8{}, exIdx...), dIdx...)
+					}
+					for _, l := range letters {
+						b.Hists = append(b.Hists, p+hex.EncodeToString([]byte{l}))
+					}
+				}
+			}
+			shapeLevelRuns = append(shapeLevelRuns, len(b.Hists))
+			p := procs
+			if len(b.Hists) < 200 {
+				p = 1
+			}
+			acc := verifC03Dispatch(t, dir, al, b, p, workers)
+			sprefixes = acc.Extend
+			sort.Strings(sprefixes)
+			acc.Extend = nil
+			shapeAcc.merge(acc)
+		}
+	}
+	shapesDone := time.Since(start)
+	total.merge(shapeAcc)
+
 	// nominal size of the exhaustive domain
 	nominal := 0.0
 	for k := 1; k <= maxLen; k++ {
@@ -1067,8 +1255,14 @@ func TestVerifC03HashHistories(t *testing.T) {
 		"each non-final write is accepted and changes the database (%d runs, per level %v); a history with an earlier refused or no-change write is not run, because that write left the full database dump "+
 		"unchanged (checked on every such write) and the history then coincides with a shorter enumerated one. "+
 		"SAMPLED (not exhaustive): %d histories of length in %v on the full alphabet, seed %d, kind weights mk .30 mkU .05 np .20 ep .25 del .10 undel .10, "+
-		"edge writes aimed at an existing edge with probability .85. exhaustive=true is reported only when the sampled part is disabled (VERIF_C03_SAMPLES=0).",
-		len(al), len(exIdx), tier, maxLen, nominal, verifC03SumInts(levelRuns), levelRuns, nSample, sampleLens, seed)
+		"edge writes aimed at an existing edge with probability .85. exhaustive=true is reported only when the sampled part is disabled (VERIF_C03_SAMPLES=0). "+
+		"SHAPES (exhaustive on top of fixed prefixes): each of %d named shapes is built first on the fresh database (the prefix is not counted as history; in the run of the bare shape "+
+		"Inv is checked after every prefix step, in the runs with a suffix after the complete prefix and after every write of the suffix), then ALL histories of length <= %d over the exhaustive alphabet "+
+		"run on top of it, with the same reduction (a history is extended only if its last write was accepted and changed the database): %d runs, per level (0 = bare shapes) %v, nominal %.0f. "+
+		"For the deep diamond the alphabet also has %d letters about a fourth extra node D (mk D under B, mk D under C, np D value@T2=1 and @T1=2, ep/del/undel D under B, mkU U under D), "+
+		"which occur nowhere else. Shapes (diamonds make the upstream walk reach a joining edge along two paths, which lengths <= %d from the empty database never build): %s.",
+		nFull, len(exIdx), tier, maxLen, nominal, verifC03SumInts(levelRuns), levelRuns, nSample, sampleLens, seed,
+		len(shapes), shapeLen, verifC03SumInts(shapeLevelRuns), shapeLevelRuns, shapeNominal, len(dIdx), maxLen, strings.Join(shapeNames, " || "))
 
 	classes := []*verifC03Class{}
 	for _, c := range total.Classes {
@@ -1111,7 +1305,14 @@ func TestVerifC03HashHistories(t *testing.T) {
 		"exhaustive_part": map[string]any{"alphabet": len(exIdx), "max_len": maxLen, "runs": verifC03SumInts(levelRuns),
 			"runs_per_level": levelRuns, "nominal_histories": nominal, "complete": len(total.Errs) == 0,
 			"seconds": exhaustiveDone.Seconds()},
-		"sampled_part":      map[string]any{"alphabet": len(al), "histories": nSample, "lengths": sampleLens},
+		"sampled_part": map[string]any{"alphabet": nFull, "histories": nSample, "lengths": sampleLens,
+			"seconds": (sampledDone - exhaustiveDone).Seconds()},
+		"shapes_part": map[string]any{"shapes": len(shapes), "shape_names": shapeNames, "max_len": shapeLen,
+			"alphabet": len(exIdx), "alphabet_deep_diamond": len(exIdx) + len(dIdx),
+			"runs": shapeAcc.Runs, "runs_per_level": shapeLevelRuns, "nominal_histories": shapeNominal,
+			"evaluations": shapeAcc.Evals, "distinct_nontrivial": len(shapeAcc.Nontrivial),
+			"violations": len(shapeAcc.Violating), "complete": len(shapeAcc.Errs) == 0,
+			"seconds": (shapesDone - sampledDone).Seconds()},
 		"runs":              total.Runs,
 		"accepted_writes":   total.Accepted,
 		"refused_writes":    total.Refused,
